@@ -77,9 +77,10 @@ static inline void Listener_notifyProtocolMessage(struct ProtocolListener* l, Me
   __CPROVER_assert(g_rx.emit, "[C01,C02,C15] a message is reported only when the symbols on the bus form a complete CRC-correct telegram (source master, valid destination, acknowledged)");
   __CPROVER_assert(g_reported == 1, "[C01] a telegram is reported once");
   __CPROVER_assert(dir == (g_step_role == 1 ? md_send : g_step_role == 2 ? md_answer : md_recv), "[C01,C02,C15] direction of the reported message matches the role");
-  __CPROVER_assert(master->m_data.n == g_rx.cn && slave->m_data.n == ((g_rx.cmd[1] == 0xFE || rx_is_master(g_rx.cmd[1])) ? 0 : g_rx.rn), "[C01,C02] reported telegram has the lengths seen on the bus");
+  _Bool mm_answer = g_step_role == 2 && rx_is_master(g_rx.cmd[1]);   /* the registered "answer" of a master-master telegram only carries the expected length */
+  __CPROVER_assert(master->m_data.n == g_rx.cn && (mm_answer || slave->m_data.n == ((g_rx.cmd[1] == 0xFE || rx_is_master(g_rx.cmd[1])) ? 0 : g_rx.rn)), "[C01,C02] reported telegram has the lengths seen on the bus");
   __CPROVER_assert(__CPROVER_forall { size_t k; (k < SS_CAP) ==> (k < g_rx.cn ==> master->m_data.d[k] == g_rx.cmd[k]) }, "[C01,C02] reported master part equals the unescaped bytes on the bus");
-  __CPROVER_assert(__CPROVER_forall { size_t j; (j < SS_CAP) ==> (j < slave->m_data.n ==> slave->m_data.d[j] == g_rx.res[j]) }, "[C01,C02] reported slave part equals the unescaped bytes on the bus");
+  __CPROVER_assert(__CPROVER_forall { size_t j; (j < SS_CAP) ==> ((j < slave->m_data.n && !mm_answer) ==> slave->m_data.d[j] == g_rx.res[j]) }, "[C01,C02] reported slave part equals the unescaped bytes on the bus");
 }
 
 /* ---------------- device (interface contract of Device, see device.h) ---------------- */
